@@ -36,7 +36,10 @@ type scenario struct {
 	Discards []int // per data message: -1 read fully, otherwise bytes to read before Discard()
 	Want     ws.OpCode
 	Reuse    bool
-	Ctor     int // 0 struct literal, 1 NewReader, 2 NewClientSideReader/NewServerSideReader
+	// Stalls: frame-start offsets at which the transport returns one (0, transient error) before
+	// serving the frame (a read deadline firing between frames); the caller retries. Reader entry only.
+	Stalls []int
+	Ctor   int // 0 struct literal, 1 NewReader, 2 NewClientSideReader/NewServerSideReader
 	// ContRead: the OnContinuation callback reads this many bytes (at most) of every
 	// continuation body; they are consumed by the callback, the rest is delivered by Read.
 	ContRead int
@@ -45,13 +48,19 @@ type scenario struct {
 func (s scenario) describe() interface{} {
 	return map[string]interface{}{
 		"entry": s.Entry, "state": int(s.State), "chunks": s.Chunks, "eof_with_data": s.EOFData,
-		"bufsize": s.BufSize, "frames": ref.Describe(s.Frames), "discards": s.Discards, "want": int(s.Want), "oncontinuation_reads": s.ContRead, "ctor": s.Ctor,
+		"bufsize": s.BufSize, "frames": ref.Describe(s.Frames), "discards": s.Discards, "want": int(s.Want), "oncontinuation_reads": s.ContRead, "ctor": s.Ctor, "stall_at_frame_starts": s.Stalls,
 	}
 }
 
 func (s scenario) src() *tx.Src {
 	src := tx.NewSrc(ref.EncodeAll(s.Frames), s.Chunks)
 	src.EOFWithData = s.EOFData
+	if len(s.Stalls) > 0 {
+		src.StallAt = map[int]bool{}
+		for _, off := range s.Stalls {
+			src.StallAt[off] = true
+		}
+	}
 	return src
 }
 
@@ -87,6 +96,9 @@ func readAll(r io.Reader, bufSize, maxIdle int) ([]byte, error) {
 	for {
 		n, err := r.Read(buf)
 		out = append(out, buf[:n]...)
+		if err == tx.ErrTransient && n == 0 {
+			continue // nothing was consumed: the caller retries (only generated at frame starts)
+		}
 		if err == io.EOF {
 			return out, nil
 		}
@@ -154,6 +166,15 @@ func runReader(s scenario) error {
 	var got []seen
 	var cbErr error
 	rd := newReader(src, s)
+	nextFrame := func() (ws.Header, error) {
+		for tries := 0; ; tries++ {
+			h, err := rd.NextFrame()
+			if err == tx.ErrTransient && tries < 64 {
+				continue
+			}
+			return h, err
+		}
+	}
 	rd.OnIntermediate = func(h ws.Header, r io.Reader) error {
 		var p []byte
 		var err error
@@ -252,7 +273,7 @@ func runReader(s scenario) error {
 		if e.Kind == "ctl" && e.Intermediate {
 			continue
 		}
-		h, err := rd.NextFrame()
+		h, err := nextFrame()
 		if err != nil {
 			return fmt.Errorf("NextFrame before %v: %v", e, err)
 		}
@@ -321,7 +342,7 @@ func runReader(s scenario) error {
 	if cbErr != nil {
 		return cbErr
 	}
-	if _, err := rd.NextFrame(); err != io.EOF {
+	if _, err := nextFrame(); err != io.EOF {
 		return fmt.Errorf("NextFrame at the end of the stream returned %v, want io.EOF", err)
 	}
 	// Intermediate control frames of a message are observed before the message completes;
@@ -555,6 +576,20 @@ func TestReader(t *testing.T) {
 				d = rapid.IntRange(0, len(e.Payload)).Draw(t, "discardAfter")
 			}
 			s.Discards = append(s.Discards, d)
+		}
+		allRead := true
+		for _, d := range s.Discards {
+			allRead = allRead && d < 0
+		}
+		if allRead && rapid.IntRange(0, 3).Draw(t, "stalls?") == 0 {
+			pos := 0
+			for _, f := range s.Frames {
+				if rapid.IntRange(0, 2).Draw(t, "stall") == 0 {
+					s.Stalls = append(s.Stalls, pos)
+				}
+				pos += len(f.Encode())
+			}
+			hx.Class(fmt.Sprintf("Reader/stalls=%d", min(len(s.Stalls), 3)))
 		}
 		hx.Eval()
 		s.note()
